@@ -257,20 +257,20 @@ pub fn build<K: GK>(g: &G, env: &Env, cx: &Ctx) -> K {
             K::from_bfs(proto_vulcan::operator::condu::condu(OperatorParam::new(&refs)))
         }
         G::Onceo(gs) => {
-            let lists: Vec<Vec<PGoal>> = gs.iter().map(|g| vec![build::<PGoal>(g, env, cx)]).collect();
+            let lists: Vec<Vec<PGoal>> = group(gs.iter().map(|g| build::<PGoal>(g, env, cx)).collect());
             let refs: Vec<&[PGoal]> = lists.iter().map(|v| v.as_slice()).collect();
             K::from_bfs(proto_vulcan::operator::onceo::onceo(OperatorParam::new(&refs)))
         }
         G::Dfs(gs) => {
             let lists: Vec<Vec<PDfsGoal>> =
-                gs.iter().map(|g| vec![build::<PDfsGoal>(g, env, cx)]).collect();
+                group(gs.iter().map(|g| build::<PDfsGoal>(g, env, cx)).collect());
             let refs: Vec<&[PDfsGoal]> = lists.iter().map(|v| v.as_slice()).collect();
             GoalCast::cast_into(proto_vulcan::operator::dfs::dfs::<SimUser, Eng, K>(
                 OperatorParam::new(&refs),
             ))
         }
         G::Anyo(gs) => {
-            let lists: Vec<Vec<PGoal>> = gs.iter().map(|g| vec![build::<PGoal>(g, env, cx)]).collect();
+            let lists: Vec<Vec<PGoal>> = group(gs.iter().map(|g| build::<PGoal>(g, env, cx)).collect());
             let refs: Vec<&[PGoal]> = lists.iter().map(|v| v.as_slice()).collect();
             K::from_bfs(proto_vulcan::operator::anyo::anyo(OperatorParam::new(&refs)))
         }
@@ -487,6 +487,21 @@ impl Solve<SimUser, Eng> for StallGoal {
     fn solve(&self, _solver: &PSolver, state: PState) -> PStream {
         stall_stream(self.dfs, state)
     }
+}
+
+/// Operator bodies are lists of conjunctions (`&[&[G]]`). The macros pass one goal per inner slice;
+/// API users may pass several. An odd number (>= 3) of goals is grouped in pairs, everything else
+/// stays one goal per slice, so that both the outer and the inner fold of `from_conjunctions` run.
+fn group<T>(goals: Vec<T>) -> Vec<Vec<T>> {
+    let pairs = goals.len() >= 3 && goals.len() % 2 == 1;
+    let mut out: Vec<Vec<T>> = Vec::new();
+    for g in goals {
+        match out.last_mut() {
+            Some(last) if pairs && last.len() < 2 => last.push(g),
+            _ => out.push(vec![g]),
+        }
+    }
+    out
 }
 
 fn stall_stream(dfs: bool, state: PState) -> PStream {
